@@ -25,6 +25,12 @@ def gen(rng, tier):
     if rng.random() < 0.08:
         ctx.weights["window"] = 10.0  # chains of sliding-window reductions (F21)
     ctx.allow_unknown = rng.random() < 0.4
+    if rng.random() < 0.12:
+        # nodes whose meta cannot be computed (masked inputs) under reductions whose tree/meta is fixed at
+        # construction: persist/optimize read metadata that compute never needs
+        ctx.p_masked = 0.6
+        ctx.p_arg_reduction = 0.5
+        ctx.weights["reduction"] = 7.0
     n = rng.randint(3, 10)
     recipe = G.gen_program(ctx, n, n_leaves=rng.randint(1, 2))
     steps = recipe["steps"]
@@ -390,5 +396,6 @@ def candidates(case):
 FINDING_ABLATIONS = {
     "F2b": (H.pre_generic_driver, H.abl_generic_driver),
     "F20": (H.pre_userfn, H.ablate_userfns),
+    "F28": (H.pre_masked_unoptimized, H.abl_unmask),
     "F22": (H.pre_nested_window, H.abl_nested_window),
 }
